@@ -116,6 +116,10 @@ class Interp:
             raise AnalysisError(f"guard language: free name {node.id!r} has no declared domain ({text})")
         if isinstance(node, ast.Attribute):
             base = self.ev(node.value) if not isinstance(node.value, ast.Name) or U(node.value) in self.env else None
+            if base is None and isinstance(node.value, ast.Name) and self.name_hook is not None:
+                got = self.name_hook(self, node.value)  # a class of the repository named directly: Class.attr
+                if isinstance(got, dict) and got.get("__is_class__"):
+                    base = got
             if isinstance(base, dict) and node.attr in base:
                 return base[node.attr]
             if node.attr == "__name__" and isinstance(base, str) and U(node.value).endswith("__class__"):
